@@ -114,6 +114,28 @@ Theorem C04_skip_changes_nothing :
     step_op (OpExecEnd l [] CSucceeded [] true false) s = Ok (upd_step l succeeded_row s).
 Proof. exact skip_changes_nothing. Qed.
 
+(* ---- tracked environment variables -------------------------------------------------------- *)
+
+(* Restart with unchanged files AND unchanged values of every tracked variable: no step is marked
+   PENDING, the recorded values stay as they are, the stored workflow is untouched. *)
+Theorem C04_restart_noop_env :
+  forall (s : st) (vals : list envval) (cur : str -> option N) (b : bool) (rehash : list (str * option N)),
+    quiescent_success_b s = true -> unchanged_b s rehash = true -> env_unchanged_b vals cur s = true ->
+    run_ops (startup_ops_env s vals cur rehash) s = s /\ rescan_env_store b vals cur s = vals /\
+    (forall l, dispatch_guard l s = false).
+Proof. exact restart_noop_env. Qed.
+
+(* A variable that goes A -> B -> A over two restarts is noticed both times, because the start
+   that sees B records B (startup.rescan_env_vars after fix cc92e6e; gen_env_rescan_stores_seen_value). *)
+Theorem C04_env_aba_detected :
+  forall (s s' : st) (vals : list envval) (curB curA : str -> option N) (l n : str) (a : option N),
+    In (l, n, a) vals ->
+    attached (KStep, l) s = true -> attached (KStep, l) s' = true ->
+    curB n <> a -> curA n = a ->
+    In l (rescan_env_steps vals curB s) /\
+    In l (rescan_env_steps (rescan_env_store true vals curB s) curA s').
+Proof. exact env_aba_detected. Qed.
+
 (* ---- the cone ---------------------------------------------------------------------------- *)
 
 (* Applying the EXTERNAL re-hash results of source files (CONFIRMED or MISSING static files) to ANY
@@ -175,7 +197,9 @@ Proof. exact cone_partial. Qed.
    Graph.transition is workflow._HASH_TRANSITIONS (all 64 keys, present or absent); a re-hash
    result reaches update_file_hashes exactly when the rule of Executor._run_hash_job says so;
    startup.rescan_files leaves out PLANNED and VOLATILE and confirms UNCONFIRMED; resume_from_db
-   awaits reset_interrupted_steps, watch_known_dirs, rescan_env_vars, rescan_files, rescan_nglobs. *)
+   awaits reset_interrupted_steps, watch_known_dirs, rescan_env_vars, rescan_files, rescan_nglobs;
+   rescan_env_vars stores the value it saw; a CONFIRMED result for an UNCONFIRMED file is never
+   dropped as stale. *)
 Theorem C04_model_matches_generated_facts :
   (forallb transition_row_ok gen_transitions = true /\ length gen_transitions = 64%nat) /\
   (forall s cu ph r, find_file (fst ph) s = Some r ->
@@ -186,8 +210,10 @@ Theorem C04_model_matches_generated_facts :
   ((forall f, existsb (N.eqb (fstate_code f)) gen_rescan_excluded =
               match f with FPlanned | FVolatile => true | _ => false end) /\
    fstate_code FUnconfirmed = gen_rescan_confirm_state /\
-   gen_startup_sequence = [1; 2; 3; 4; 5]).
-Proof. exact (conj transitions_tie (conj hash_job_rule_tie rescan_rule_tie)). Qed.
+   gen_startup_sequence = [1; 2; 3; 4; 5]) /\
+  (gen_env_rescan_stores_seen_value = true /\
+   existsb (N.eqb (fstate_code FUnconfirmed)) gen_confirmation_kept_states = gen_drops_stale_confirmation).
+Proof. exact (conj transitions_tie (conj hash_job_rule_tie (conj rescan_rule_tie env_rule_tie))). Qed.
 
 (* ------------------------------------------------------------------------------------------ *)
 (* Non-vacuity: a concrete successful history                                                  *)
@@ -248,3 +274,14 @@ Proof.
   - apply co_dispatch. vm_compute. reflexivity.
   - apply co_exec_ok; [exact Ht|]. intros ph [<-|[]]. vm_compute. reflexivity.
 Qed.
+
+(* Without storing the seen value the return to A goes unnoticed (the behaviour before the fix). *)
+Example C04_env_aba_missed_without_store :
+  let vals := [(Ex.t, [86], Some 1)] in
+  let curB := fun _ : str => Some 2 in
+  let curA := fun _ : str => Some 1 in
+  rescan_env_steps vals curB Ex.q = [Ex.t] /\
+  rescan_env_steps (rescan_env_store false vals curB Ex.q) curA Ex.q = [] /\
+  rescan_env_steps (rescan_env_store true vals curB Ex.q) curA Ex.q = [Ex.t].
+Proof. vm_compute. repeat split; reflexivity. Qed.
+
